@@ -2,6 +2,7 @@ import NanoVerif.Model.Proto
 import NanoVerif.Model.WLearner
 import NanoVerif.Model.WLearnerTree
 import NanoVerif.Model.WLearnerKTable
+import NanoVerif.Gen.WLearnerCriterion
 /-!
   driver family `wl` (C10): one self-contained op per line
 
@@ -22,8 +23,9 @@ open NanoVerif.Proto NanoVerif.WLearner
 
 local instance : NatCast Float := ⟨Float.ofNat⟩
 
-/-- `std::numeric_limits<double>::epsilon() * 1e+3` -/
-def clampK : Float := Float.ofBits 0x3CB0000000000000 * 1000.0
+/-- `std::numeric_limits<double>::epsilon() * 1e+3`: the floor expression REGENERATED from src/wlearner/criterion.cpp
+    (`Gen.WLearnerCriterion.scoreFloor`, the `K` of `model_score_is_generated`) at the machine epsilon 2^-52 -/
+def clampK : Float := NanoVerif.Gen.WLearnerCriterion.scoreFloor (Float.ofBits 0x3CB0000000000000)
 /-- `std::numeric_limits<double>::max()` -/
 def big : Float := Float.ofBits 0x7FEFFFFFFFFFFFFF
 def inf : Float := 1.0 / 0.0
